@@ -945,40 +945,49 @@ def _a(x, cfg):
     defaults = {"str": "<default>", "int": -999, "float": -9.75, "bool": None, "datetime": _dt.datetime(1970, 1, 1),
                 "timedelta": _dt.timedelta(days=999)}
     default = [defaults[tname]] if mult else defaults[tname]
-    p = to.OptionParser()
-    p.define("my_opt", default=default, type=types[tname], multiple=mult)
-    p.define("other", default=5, type=int)
     text = ",".join(T(part) for part in x)
-    with contextlib.redirect_stderr(io.StringIO()):
-        if src in ("cmd", "flag", "unknown", "unset"):
-            args = {"cmd": ["prog", "--my-opt=" + text], "flag": ["prog", "--my-opt"],
-                    "unknown": ["prog", "--no-such-option=" + text], "unset": ["prog"]}[src]
-            rest = p.parse_command_line(args)
-            if rest:
-                return {"err": "leftover arguments"}
+
+    def run(optname):
+        p = to.OptionParser()
+        p.define("my_opt", default=default, type=types[tname], multiple=mult)
+        p.define("other", default=5, type=int)
+        with contextlib.redirect_stderr(io.StringIO()):
+            if src in ("cmd", "flag", "unknown", "unset"):
+                args = {"cmd": ["prog", optname + "=" + text], "flag": ["prog", optname],
+                        "unknown": ["prog", "--no-such-option=" + text], "unset": ["prog"]}[src]
+                rest = p.parse_command_line(args)
+                if rest:
+                    return {"err": "leftover arguments"}
+            else:
+                body = "my_opt = %r\n" % text if src == "cfgstr" else "my_opt = %s\n" % text
+                import os
+                os.makedirs(tlc.SCRATCH, exist_ok=True)
+                with tempfile.NamedTemporaryFile("wb", suffix=".conf", dir=tlc.SCRATCH, delete=True) as f:
+                    f.write(body.encode("utf-8"))
+                    f.flush()
+                    p.parse_config_file(f.name)
+        if p.other != 5:
+            return {"err": "another option changed"}
+        v = p.my_opt
+        if v is default or (src == "unset" and v == default):
+            return {"v": ["default"]}
+        if mult:
+            if type(v) is not list:
+                return {"err": "type:" + type(v).__name__}
+            out = [_opt_project(z, tname) for z in v]
         else:
-            body = "my_opt = %r\n" % text if src == "cfgstr" else "my_opt = %s\n" % text
-            import os
-            os.makedirs(tlc.SCRATCH, exist_ok=True)
-            with tempfile.NamedTemporaryFile("wb", suffix=".conf", dir=tlc.SCRATCH, delete=True) as f:
-                f.write(body.encode("utf-8"))
-                f.flush()
-                p.parse_config_file(f.name)
-    if p.other != 5:
-        return {"err": "another option changed"}
-    v = p.my_opt
-    if v is default or (src == "unset" and v == default):
-        return {"v": ["default"]}
-    if mult:
-        if type(v) is not list:
-            return {"err": "type:" + type(v).__name__}
-        out = [_opt_project(z, tname) for z in v]
-    else:
-        out = _opt_project(v, tname)
-    bad = [o for o in (out if mult else [out]) if isinstance(o, dict) and "bad" in o]
-    if bad:
-        return {"err": bad[0]["bad"]}
-    return {"v": out}
+            out = _opt_project(v, tname)
+        bad = [o for o in (out if mult else [out]) if isinstance(o, dict) and "bad" in o]
+        if bad:
+            return {"err": bad[0]["bad"]}
+        return {"v": out}
+
+    r1 = observe(lambda: run("--my-opt"))
+    if src in ("cmd", "flag"):              # the option name may be given with '-' or '_': same result required
+        r2 = observe(lambda: run("--my_opt"))
+        if canon(r1) != canon(r2):
+            return {"err": "name spelling '-' / '_' changes the result"}
+    return r1
 
 
 def _options_classify(fn, x, cfg, exp, obs):
